@@ -1,6 +1,8 @@
 package main
 
 import (
+	"time"
+
 	"github.com/sharedcode/sop"
 	"verif.local/mc/txn"
 )
@@ -58,6 +60,8 @@ func scenariosFor(prop string, thorough bool) []*scenario {
 			Progs: []txn.Prog{W("T1", op("remove", "a", 2), op("add", "a", 4, "t1")), W("T2", op("rmw", "a", 2, "+2"), op("get", "a", 3))}})
 		add(&scenario{Name: "segment-values-rmw", Stores: []txn.StoreSpec{store("a", 4, "segment", 1, "x", 2, "y")},
 			Progs: []txn.Prog{W("T1", op("rmw", "a", 1, "+1")), W("T2", op("rmw", "a", 1, "+2"))}})
+		add(&scenario{Name: "same-node-writers-with-20m-stall", Env: []string{"advance-20m"}, Stores: []txn.StoreSpec{store("a", 4, "node", 1, "a", 2, "b")},
+			Progs: []txn.Prog{W("T1", op("rmw", "a", 1, "+1")), W("T2", op("update", "a", 2, "w2"))}})
 		add(&scenario{Name: "three-writers-rmw", Stores: []txn.StoreSpec{store("a", 4, "node", 1, "x", 2, "y")},
 			Progs: []txn.Prog{W("T1", op("rmw", "a", 1, "+1")), W("T2", op("rmw", "a", 1, "+2")), W("T3", op("get", "a", 1), op("update", "a", 2, "t3"))}})
 	case "C04":
@@ -107,6 +111,20 @@ func scenariosFor(prop string, thorough bool) []*scenario {
 		}
 		add(&scenario{Name: "two-writers-one-fails-vs-reader", Stores: []txn.StoreSpec{store("a", 4, "node", 1, "a", 2, "b")},
 			Progs: []txn.Prog{W("W1", op("rmw", "a", 1, "+1")), W("W2", op("rmw", "a", 1, "+2")), R("R", op("get", "a", 1), op("count", "a", 0))}})
+	case "C20":
+		for _, place := range []string{"node", "segment"} {
+			st := []txn.StoreSpec{store("a", 2, place, 1, "a", 2, "b", 3, "c")}
+			add(mkSeq(&scenario{Name: "write-then-read-vs-concurrent-reader-" + place, Stores: st,
+				Seq: [][]txn.Prog{{W("W", op("update", "a", 1, "new")), R("R2", op("get", "a", 1), op("count", "a", 0))}, {R("R1", op("get", "a", 1), op("get", "a", 3))}}}))
+			add(mkSeq(&scenario{Name: "add-remove-then-scan-vs-concurrent-reader-" + place, Stores: st,
+				Seq: [][]txn.Prog{{W("W", op("remove", "a", 2), op("add", "a", 9, "n9")), R("R2", op("scan", "a", 0), op("count", "a", 0))}, {N("R1", op("get", "a", 2), op("count", "a", 0))}}}))
+		}
+		add(mkSeq(&scenario{Name: "two-writes-then-read-with-l2-clear", Stores: []txn.StoreSpec{store("a", 4, "node", 1, "a", 2, "b")}, Env: []string{"clear-l2"},
+			Seq: [][]txn.Prog{{W("W1", op("update", "a", 1, "v1")), W("W2", op("update", "a", 1, "v2")), R("R", op("get", "a", 1))}, {R("R1", op("get", "a", 1))}}}))
+		add(mkSeq(&scenario{Name: "write-then-read-with-l1-clear-and-ttl", MaxTime: time.Hour, Stores: []txn.StoreSpec{store("a", 4, "node", 1, "a", 2, "b")}, Env: []string{"clear-l1", "advance-20m"},
+			Seq: [][]txn.Prog{{W("W1", op("rmw", "a", 1, "+1")), R("R", op("get", "a", 1))}, {W("W2", op("update", "a", 2, "w2")), R("R1", op("get", "a", 2))}}}))
+		add(mkSeq(&scenario{Name: "write-then-read-two-stores", Stores: []txn.StoreSpec{store("a", 4, "node", 1, "x"), store("b", 4, "segment", 1, "y")},
+			Seq: [][]txn.Prog{{W("W", op("update", "a", 1, "n1"), op("update", "b", 1, "n2")), R("R2", op("get", "a", 1), op("get", "b", 1))}, {R("R1", op("get", "b", 1), op("get", "a", 1))}}}))
 	case "C06":
 		add(&scenario{Name: "adds-and-removes", Stores: []txn.StoreSpec{store("a", 2, "node", 1, "a", 2, "b", 3, "c")},
 			Progs: []txn.Prog{W("T1", op("add", "a", 4, "t1"), op("remove", "a", 1)), W("T2", op("add", "a", 5, "t2"), op("add", "a", 6, "t2"))}})
